@@ -213,7 +213,7 @@ def add_m3(ctx, kind, name, area, n, params=None, shards=None):
     return st
 
 
-def add_gen_exec_validate(ctx, kind, name, module, extra, cfg=GEN_CFG, min_cases=1, timeout=3600, shards=None):
+def add_gen_exec_validate(ctx, kind, name, module, extra, cfg=GEN_CFG, min_cases=1, timeout=3600, shards=None, transform=None):
     """TLC enumerates INPUTS (no prediction is possible without modelling the algorithm); the harness
     executes them against the real code and records the observations; TLC judges every recorded event
     with the area's trace module"""
@@ -222,6 +222,8 @@ def add_gen_exec_validate(ctx, kind, name, module, extra, cfg=GEN_CFG, min_cases
     if not os.path.exists(cases):
         raise Broken("%s: TLC emitted no inputs" % name)
     inputs = vlib.read_ndjson(cases)
+    if transform:
+        inputs = [transform(i) for i in inputs]
     if len(inputs) < min_cases:
         raise Broken("%s: only %d inputs generated (expected >= %d)" % (name, len(inputs), min_cases))
     shards = shards or min(vlib.MAX_SHARDS, max(1, len(inputs) // 1500))
